@@ -27,7 +27,9 @@ RULE = ("inputs = valid files from the SRT / WebVTT / SCC / STL generators, IMSC
 ASSUMPTIONS = [
   "documented reader failures: xml.etree.ElementTree.ParseError, ValueError (incl. UnicodeDecodeError), struct.error, or returning None",
   "documented writer failures: the IMSC writer's ValueError for frame syntaxes without fps / HH:MM:SS:FF with non-integer fps (not requested here)",
-  "termination is bounded: every stage must return within 30 s on inputs <= 16 KiB (timer firing = violation 'does-not-return')",
+  "termination is bounded: each case (reader + all downstream stages) must finish within 120 s of the process's own CPU time (ITIMER_VIRTUAL, "
+  "independent of machine load; a case normally takes < 5 s) on inputs <= 64 KiB; the timer firing = violation 'does-not-return'; the shard's "
+  "wall-clock timeout is inconclusive, never a violation",
   "configurations are sampled per input (1 SRT, 2 VTT, 2 IMSC, 1 LCD), not exhaustively crossed",
 ]
 REQUIRED = ["fmt:ttml", "fmt:scc", "fmt:stl", "fmt:srt", "fmt:vtt", "kind:valid", "kind:mutated", "kind:corpus", "kind:soup", "reader:returned-doc",
@@ -36,6 +38,7 @@ SHARD_TIMEOUT = {"quick": 900, "thorough": 7200}
 N = {"quick": 110, "thorough": 6000}
 SRC = os.path.join(core.REPO, "src/test/resources")
 MAX_INPUT = 16 * 1024
+CASE_CPU_BUDGET = 120   # seconds of this process's CPU time per case
 ALLOWED_READER = (et.ParseError, ValueError, struct.error)
 
 
@@ -201,8 +204,8 @@ def run_case(ctx, rng, fmt, data: bytes, cfg, kind):
   ctx.count("kind:" + kind)
   payload = {"fmt": fmt, "data_hex": data.hex(), "cfg": cfg, "kind": kind}
   what = f"{fmt} input ({kind}, {len(data)} bytes, cfg={cfg})"
-  signal.signal(signal.SIGALRM, _alarm)
-  signal.setitimer(signal.ITIMER_REAL, 30)
+  signal.signal(signal.SIGVTALRM, _alarm)
+  signal.setitimer(signal.ITIMER_VIRTUAL, CASE_CPU_BUDGET)
   try:
     try:
       doc = read(fmt, data, cfg)
@@ -233,7 +236,7 @@ def run_case(ctx, rng, fmt, data: bytes, cfg, kind):
     except Stuck:
       pass
   finally:
-    signal.setitimer(signal.ITIMER_REAL, 0)
+    signal.setitimer(signal.ITIMER_VIRTUAL, 0)
 
 
 def run(ctx, params):
